@@ -197,7 +197,7 @@ func loopBound(fn *ssa.Function, blk *ssa.BasicBlock) (ssa.Value, bool) {
 			// continuation tests
 			var found ssa.Value
 			ana.IfEdges(fn, func(iff *ssa.If, b *ssa.BasicBlock) {
-				c, pos, isCmp := ana.AsCmp(iff.Cond)
+				c, pos, isCmp := ana.AsCmpDir(iff.Cond, token.LSS)
 				if !isCmp || !pos || (c.Op != token.LSS && c.Op != token.NEQ) {
 					return
 				}
@@ -218,7 +218,7 @@ func loopBound(fn *ssa.Function, blk *ssa.BasicBlock) (ssa.Value, bool) {
 					// rotated `for i := range B`: needs the entry guard 0 < B
 					guard := false
 					ana.IfEdges(fn, func(iff2 *ssa.If, b2 *ssa.BasicBlock) {
-						c2, pos2, isCmp2 := ana.AsCmp(iff2.Cond)
+						c2, pos2, isCmp2 := ana.AsCmpDir(iff2.Cond, token.LSS)
 						if isCmp2 && pos2 && c2.Op == token.LSS && c2.Y == c.Y {
 							if k, ok := ana.ConstInt(c2.X); ok && k == 0 && (b2.Succs[0] == h || b2.Succs[0].Dominates(h)) {
 								guard = true
@@ -249,7 +249,7 @@ func loopBound(fn *ssa.Function, blk *ssa.BasicBlock) (ssa.Value, bool) {
 					continue
 				}
 				if iff, ok := h.Instrs[len(h.Instrs)-1].(*ssa.If); ok {
-					c, pos, isCmp := ana.AsCmp(iff.Cond)
+					c, pos, isCmp := ana.AsCmpDir(iff.Cond, token.LSS)
 					if isCmp && pos && c.Op == token.LSS && c.X == ssa.Value(bo) {
 						return c.Y, true
 					}
